@@ -77,6 +77,15 @@ def check_expr(case, res, vs):
         if ex.get("val", "").startswith("N(") and "tuple" in stype and sraw == draw:
             # a null value carries no tuple declaration to print: major, structure id and dimension are equal
             dtype = stype
+        # the value itself is what its type says: every item of a tuple has the declared item type, every element of a table the
+        # element type (also nulls)
+        try:
+            from ..dumpparse import parse_value, uniform
+            breach = uniform(parse_value(ex.get("val", ""))) if ex.get("val") else None
+        except Exception:
+            breach = None
+        if breach:
+            vs.append(Violation("value-vs-own-type:%s" % cls, "%s evaluates to %s: %s" % (m["e"], ex.get("val", "")[:120], breach), case))
         if not opaque(stype) and stype != dtype:
             # a tuple whose static structure is known must match; a typed table with undefined element type is opaque
             if re.search(r"\b(uq|us|ut|ur|ub)\b", m["e"]):
